@@ -503,12 +503,20 @@ def contiguous(needle: Sequence[str], hay: Sequence[str]) -> bool:
     return n == 0 or any(list(hay[i:i + n]) == list(needle) for i in range(len(hay) - n + 1))
 
 
-def judge(rec: Dict[str, Any], fmt: str, docstring: str, r: Dict[str, Any]) -> List[Dict[str, Any]]:
+def bad_field(bad: List[Dict[str, Any]]) -> bool:
+    return any(b["invariant"] == "FieldShownOrReported" for b in bad)
+
+
+def judge(rec: Dict[str, Any], fmt: str, docstring: str, r: Dict[str, Any],
+          reported: Optional[List[Dict[str, Any]]] = None) -> List[Dict[str, Any]]:
     """
     rec: the record TLC printed (doc + expected streams).  r: what the real pipeline produced.
-    Returns the failed clauses of the property with what was expected / observed.
+    Returns the failed clauses of the property with what was expected / observed; fields that are not shown
+    faithfully but were reported in a warning are appended to `reported`.
     """
     bad: List[Dict[str, Any]] = []
+    if reported is None:
+        reported = []
     if fmt == "plaintext":
         root = parse_html(r["html"])
         if root.all_text() != docstring:
@@ -533,8 +541,7 @@ def judge(rec: Dict[str, Any], fmt: str, docstring: str, r: Dict[str, Any]) -> L
         for row in o["rows"]:
             shown += row["words"]
     expected_shown: List[str] = []
-    reported: List[Dict[str, Any]] = []
-    for f in rec["fields"]:
+    for fidx, f in enumerate(rec["fields"]):
         fw = [word(i) for i in f["words"]]
         fpre = [norm_block(verb_text(v)) for v in f["verb"]]
         kind, arg, entry = f["kind"], f["arg"], f["entry"]
@@ -570,15 +577,15 @@ def judge(rec: Dict[str, Any], fmt: str, docstring: str, r: Dict[str, Any]) -> L
                 expected_shown += fw
             reported.append({"kind": kind, "arg": arg, "by": (named or log)[0]})
             continue
-        bad.append({"invariant": "FieldShownOrReported", "field": {"kind": kind, "arg": arg, "entry": entry,
-                                                                  "where": f["where"]},
+        bad.append({"invariant": "FieldShownOrReported", "field": {"index": fidx, "kind": kind, "arg": arg,
+                                                                  "entry": entry, "where": f["where"]},
                     "expected": fw, "observed_rows": [x for x in ob["rows"] if set(x["words"]) & set(fw)],
                     "warnings": log})
     # nothing of the fields may be duplicated or invented: a field found under its entry is shown exactly as often as
     # expected; no word is shown more often than the source has it
     cs, ce = Counter(shown), Counter(expected_shown)
     total = Counter(word(i) for f in rec["fields"] for i in f["words"])
-    if any(cs[x] != ce[x] for x in ce) or any(cs[x] > total[x] for x in cs):
+    if not bad_field(bad) and (any(cs[x] != ce[x] for x in ce) or any(cs[x] > total[x] for x in cs)):
         bad.append({"invariant": "FieldTextExact", "expected": sorted(ce.elements()), "observed": sorted(cs.elements())})
     return bad
 
@@ -633,7 +640,8 @@ def work(args: Tuple[str, List[Dict[str, Any]], Dict[str, Any]]) -> Dict[str, An
         attrs = [f["arg"] for f in rec["fields"] if f["where"] == "attribute"]
         cases.append({"id": i, "host": rec["host"], "docstring": ds, "attrs": attrs})
         kept.append(rec)
-    out: Dict[str, Any] = {"fmt": fmt, "rendered": 0, "skipped": skipped, "bad": [], "parse_errors": [], "sample": None}
+    out: Dict[str, Any] = {"fmt": fmt, "rendered": 0, "skipped": skipped, "bad": [], "parse_errors": [], "sample": None,
+                           "reported": [], "nreported": 0, "nparse": 0}
     if not cases:
         return out
     results = render_batch(fmt, cases)
@@ -643,8 +651,15 @@ def work(args: Tuple[str, List[Dict[str, Any]], Dict[str, Any]]) -> Dict[str, An
         out["rendered"] += 1
         perr = [m for m in r["log"] if "bad docstring" in m]
         if perr:
-            out["parse_errors"].append({"format": fmt, "input": c["docstring"], "log": perr})
-        bad = judge(rec, fmt, c["docstring"], r)
+            out["nparse"] += 1
+            if len(out["parse_errors"]) < 2:
+                out["parse_errors"].append({"format": fmt, "input": c["docstring"], "log": perr})
+        rep: List[Dict[str, Any]] = []
+        bad = judge(rec, fmt, c["docstring"], r, rep)
+        if rep:
+            out["nreported"] += len(rep)
+            if len(out["reported"]) < 2:
+                out["reported"].append({"format": fmt, "input": c["docstring"], "reported": rep})
         if bad:
             out["bad"].append({"format": fmt, "rec": rec, "input": c["docstring"], "failed": bad, "html": r["html"],
                                "log": r["log"]})
@@ -758,6 +773,14 @@ def ep_real(text: str) -> Dict[str, Any]:
             "tokenizer_errs": [str(e) for e in terrs]}
 
 
+def pipeline_conserves(want: Sequence[str], got: Sequence[str], log: Sequence[str]) -> bool:
+    """every content word is visible, in source order; anything beyond that (the fallback shows the raw docstring and
+    the fields that could still be extracted) only together with a reported parse problem"""
+    it = iter(got)
+    in_order = all(any(x == y for y in it) for x in want)
+    return in_order and (list(got) == list(want) or any("bad docstring" in m for m in log))
+
+
 def ep_check(args: List[Dict[str, Any]]) -> Dict[str, Any]:
     """One batch of Epytext.tla terminal records against the real code.  Runs in a worker process."""
     out: Dict[str, Any] = {"n": 0, "unrealisable": 0, "bad": [], "drift": [], "with_errors": 0, "crash": 0,
@@ -796,3 +819,308 @@ def ep_check(args: List[Dict[str, Any]]) -> Dict[str, Any]:
         if out["sample"] is None and len(toks) >= 3 and not fatal:
             out["sample"] = {"tokens": toks, "epytext": text, "tree": real["tree"]}
     return out
+
+
+# =============================================================================== known findings (Python twins)
+VARLIKE = ("ivar", "cvar", "var")
+NAPOLEON_UNFIXED = ("ivar", "raise", "raises", "except", "warn", "warns")   # sections converted without _fix_field_desc
+
+
+def _doc(w: Dict[str, Any]) -> List[Dict[str, Any]]:
+    return w["rec"]["doc"]
+
+
+def kf_rst_lone_title(w: Dict[str, Any]) -> bool:
+    """reST: the docstring starts with a section title that is the only top-level one; exactly the words of that
+    title (and of a lone sub-section title right below it) are missing from the description, nothing else."""
+    d = _doc(w)
+    if not (w["invariant"] == "BodyText" and w["format"] == "restructuredtext" and d and d[0]["t"] == "head"
+            and d[0]["level"] == 1 and sum(1 for n in d if n["t"] == "head" and n["level"] == 1) == 1):
+        return False
+    exp, obs = w["failed"]["expected"], w["failed"]["observed"]
+    title = [word(i) for i in d[0]["w"]]
+    if obs == exp[len(title):]:
+        return True
+    if len(d) > 1 and d[1]["t"] == "head" and sum(1 for n in d if n["t"] == "head" and n["level"] == 2) == 1:
+        sub = [word(i) for i in d[1]["w"]]
+        return obs == exp[len(title) + len(sub):]
+    return False
+
+
+def kf_var_field_in_function(w: Dict[str, Any]) -> bool:
+    """an ivar / cvar / var field in the docstring of a function: neither shown nor reported"""
+    f = w["failed"].get("field") or {}
+    return w["invariant"] == "FieldShownOrReported" and f.get("kind") in VARLIKE and f.get("where") == "row" \
+        and w["rec"]["host"] == "function"
+
+
+def kf_duplicate_named_field(w: Dict[str, Any]) -> bool:
+    """keyword / ivar / cvar / var field whose name is documented again by a later field of the same kind: the earlier
+    text is replaced without a warning (for @param the same situation is reported)"""
+    f = w["failed"].get("field") or {}
+    if w["invariant"] != "FieldShownOrReported" or f.get("kind") not in ("keyword",) + VARLIKE:
+        return False
+    later = w["rec"]["fields"][f["index"] + 1:]
+    return any(g["kind"] == f["kind"] and g["arg"] == f["arg"] for g in later)
+
+
+def kf_napoleon_literal_after_one_line(w: Dict[str, Any]) -> bool:
+    """google / numpy: an entry of a Raises / Warns / Attributes section whose description is a one-line paragraph
+    ending in '::' followed by its literal block.  The conversion to reST does not keep the block indented relative to
+    the paragraph (parameters are handled), so the block is parsed as markup; a ':return:' line inside it even replaces
+    the real return field."""
+    if w["format"] not in ("google", "numpy") or w["invariant"] not in ("FieldShownOrReported", "FieldTextExact"):
+        return False
+    d = _doc(w)
+    culprits = [i for i, n in enumerate(d) if n["t"] == "field" and n["kind"] in NAPOLEON_UNFIXED
+                and i + 2 < len(d) and d[i + 2]["t"] == "lit" and d[i + 1]["style"] not in ("plain",)]
+    if not culprits:
+        return False
+    f = w["failed"].get("field")
+    if f is None:
+        return True
+    fields = [n for n in d if n["t"] == "field"]
+    me = fields[f["index"]]
+    if any(d[i] is me for i in culprits):
+        return True
+    # collateral: the literal template that contains a ':return:' line overwrites the return field
+    return f["kind"] in ("return", "returns") and any(d[i + 2]["var"] == 3 for i in culprits)
+
+
+MATCHERS = {"rst-lone-section-title-dropped": kf_rst_lone_title,
+            "var-field-in-function-docstring-dropped": kf_var_field_in_function,
+            "duplicate-named-field-silently-replaced": kf_duplicate_named_field,
+            "napoleon-literal-after-one-line-entry": kf_napoleon_literal_after_one_line}
+
+
+# =============================================================================== check
+def plan(ctx: Ctx) -> List[Dict[str, Any]]:
+    """TLC configurations of DocModel per tier; `sample` = number of documents replayed (None = all)."""
+    rep = ["param", "return", "note", "custom", "ivar"]
+    if ctx.quick:
+        return [
+            dict(name="structure<=3", actions=3, depth=3, fields=2, kinds=rep, blocks=ALL_BLOCKS, free=False, sample=None),
+            dict(name="fields", actions=2, depth=1, fields=2, kinds=ALL_KINDS, blocks=["para"], free=False, sample=None),
+            dict(name="structure=4", actions=4, depth=3, fields=1, kinds=["param", "note"], blocks=ALL_BLOCKS, free=False,
+                 sample=2500),
+        ]
+    return [
+        dict(name="structure<=4", actions=4, depth=3, fields=2, kinds=rep, blocks=ALL_BLOCKS, free=False, sample=None),
+        dict(name="fields<=3", actions=3, depth=2, fields=3, kinds=ALL_KINDS, blocks=["para", "list", "lit"], free=False,
+             sample=40000),
+        dict(name="free-choice", actions=3, depth=3, fields=1, kinds=["param", "raises"], blocks=ALL_BLOCKS, free=True,
+             sample=30000),
+        dict(name="structure=5", actions=5, depth=3, fields=1, kinds=["param", "note"], blocks=ALL_BLOCKS, free=False,
+             sample=40000),
+        dict(name="nesting<=6", actions=6, depth=3, fields=0, kinds=[], blocks=["para", "list", "lit", "doctest"], free=False,
+             sample=30000),
+    ]
+
+
+def witness_key(fmt: str, f: Dict[str, Any], rec: Dict[str, Any]) -> str:
+    shape = ",".join(n["t"] + (":" + n["kind"] if n["t"] == "field" else "") for n in rec["doc"])[:80]
+    return f"{f['invariant']}:{fmt}:{(f.get('field') or {}).get('kind')}:{shape}"
+
+
+def run(ctx: Ctx) -> int:
+    import random
+    rng = random.Random(ctx.seed)
+    for fid, fn in MATCHERS.items():
+        ctx.register_matcher(fid, fn)
+
+    # ------------------------------------------------------------------ DocModel -> real pipeline
+    stats: Dict[str, Dict[str, int]] = {f: {"rendered": 0, "not_expressible": 0, "violating_documents": 0,
+                                            "with_parse_warnings": 0, "fields_reported_not_shown": 0} for f in FORMATS}
+    cfg_stats = []
+    nontrivial = 0
+    examples_parse: List[Any] = []
+    examples_reported: List[Any] = []
+    first_cov = None
+    all_exhaustive = True
+    for pl in plan(ctx):
+        cfg = CFG.format(actions=pl["actions"], depth=pl["depth"], fields=pl["fields"], kinds=tla_set(pl["kinds"]),
+                         blocks=tla_set(pl["blocks"]), free="TRUE" if pl["free"] else "FALSE")
+        recs, templates, r = tlc_documents(ctx, cfg)
+        enumerated = len(recs)
+        if pl["sample"] is not None and len(recs) > pl["sample"]:
+            recs.sort(key=lambda x: json.dumps(x["doc"], sort_keys=True) + x["host"])
+            recs = rng.sample(recs, pl["sample"])
+            all_exhaustive = False
+        outs = run_documents(ctx, recs, templates, FORMATS)
+        for o in outs:
+            st = stats[o["fmt"]]
+            st["rendered"] += o["rendered"]
+            st["not_expressible"] += o["skipped"]
+            st["violating_documents"] += len(o["bad"])
+            st["with_parse_warnings"] += o["nparse"]
+            st["fields_reported_not_shown"] += o["nreported"]
+            ctx.traces += o["rendered"]
+            if o["sample"] is not None:
+                ctx.sample(o["sample"], limit=4)
+            if len(examples_parse) < 4:
+                examples_parse += o["parse_errors"][:1]
+            if len(examples_reported) < 4:
+                examples_reported += o["reported"][:1]
+            for b in o["bad"]:
+                for f in b["failed"]:
+                    ctx.violation({"invariant": f["invariant"], "origin": "DocModel", "format": b["format"], "input": b["input"],
+                                   "rec": b["rec"], "failed": f, "observed_html": b["html"][:3000], "warnings": b["log"],
+                                   "key": witness_key(b["format"], f, b["rec"])})
+        nontrivial += sum(1 for x in recs if len(x["doc"]) >= 3)
+        cfg_stats.append({"cfg": pl["name"], "constants": {k: pl[k] for k in ("actions", "depth", "fields", "kinds", "blocks", "free")},
+                          "documents_enumerated": enumerated, "documents_replayed": len(recs),
+                          "tlc_distinct_states": r.distinct})
+    ctx.extra["docmodel_configurations"] = cfg_stats
+    ctx.extra["per_format"] = stats
+    ctx.extra["parse_warning_examples"] = examples_parse
+    ctx.extra["reported_not_shown_examples"] = examples_reported
+
+    # action coverage of the builder (vacuity): one small run with -coverage
+    rc = ctx.tlc("DocModel", CFG.format(actions=2, depth=2, fields=1, kinds=tla_set(["param", "ivar"]), blocks=tla_set(ALL_BLOCKS),
+                                        free="FALSE").replace("CONSTRAINT Emit\n", ""), workers=1, check=True, coverage=True, count=False)
+    ctx.extra["docmodel_action_coverage"] = {k: v for k, v in rc.coverage.items() if k[:3] in ("Add", "Ope")}
+    never = [a for a in ("AddPara", "OpenList", "AddItem", "AddLiteral", "AddDoctest", "AddCode", "OpenSection", "AddField")
+             if rc.coverage.get(a, 0) == 0]
+    ctx.extra["docmodel_actions_never_taken"] = never
+
+    # ------------------------------------------------------------------ Epytext.tla <-> epytext.parse
+    import multiprocessing as mp
+    if ctx.quick:
+        ep_cfgs = [dict(n=3, indents="{0, 2, 4}", bullets='{"u", "o1", "o2", "f"}', levels="{0, 1}"),
+                   dict(n=4, indents="{0, 2}", bullets='{"u", "f"}', levels="{0}")]
+    else:
+        ep_cfgs = [dict(n=4, indents="{0, 2, 4}", bullets='{"u", "o1", "o2", "f"}', levels="{0, 1}"),
+                   dict(n=5, indents="{0, 2}", bullets='{"u", "o1", "f"}', levels="{0, 1}")]
+    ep_tot = {"sequences": 0, "unrealisable": 0, "with_fatal_error": 0, "escaping_exception": 0, "drift": 0,
+              "fields_not_last_without_error": 0}
+    fnl_texts: List[str] = []
+    seen_seq = set()
+    ep_records: List[Dict[str, Any]] = []
+    for i, ec in enumerate(ep_cfgs):
+        r = ctx.tlc("Epytext", EP_CFG.format(**ec), workers="auto", check=True, coverage=(ctx.quick and i == 0), timeout=2400)
+        if r.violated:
+            ctx.extra.setdefault("epytext_design_level_violations", []).extend(r.violated)
+        if r.coverage:
+            ctx.extra["epytext_action_coverage"] = {k: v for k, v in r.coverage.items() if k[0].isupper() and k not in ("Init",)}
+        new = []
+        for rec in r.printed:
+            k = json.dumps(rec["toks"], sort_keys=True)
+            if k not in seen_seq:
+                seen_seq.add(k)
+                new.append(rec)
+        if not ep_records:
+            ep_records = new[:50]
+        with mp.get_context("fork").Pool(max(1, min(os.cpu_count() or 4, 16))) as pool:
+            outs = pool.map(ep_check, [list(c) for c in chunks(new, 4000)])
+        for o in outs:
+            ep_tot["sequences"] += o["n"]
+            ep_tot["unrealisable"] += o["unrealisable"]
+            ep_tot["with_fatal_error"] += o["with_errors"]
+            ep_tot["escaping_exception"] += o["crash"]
+            ep_tot["drift"] += len(o["drift"])
+            ctx.traces += o["n"]
+            for dft in o["drift"]:
+                ctx.drift_note({"origin": "Epytext", **dft})
+            for b in o["bad"]:
+                ctx.violation({"invariant": b["invariant"], "origin": "Epytext", "format": "epytext", "input": b["input"],
+                               "toks": b["toks"], "expected": b["expected"], "observed": b["observed"],
+                               "key": "ep:" + json.dumps([[t["tag"], t["ind"], t["kind"]] for t in b["toks"]])})
+            fnl_texts += o["fields_not_last"]
+            ep_tot["fields_not_last_without_error"] += len(o["fields_not_last"])
+            if o["sample"] is not None:
+                ctx.sample({"origin": "Epytext", **o["sample"]}, limit=6)
+    if ep_tot["unrealisable"] > 0.1 * max(1, ep_tot["sequences"]):
+        raise MachineryError(f"more than 10% of the Epytext token streams could not be realised as source: {ep_tot}")
+    # the design-level observation "a field list that is not the last child, yet no error" through the whole pipeline:
+    # parse_docstring only extracts a trailing field list - the text must still come out (or be reported)
+    rng.shuffle(fnl_texts)
+    fnl_texts = fnl_texts[:300]
+    pipeline_bad = 0
+    for batch in chunks(fnl_texts, 150):
+        cases = [{"id": i, "host": "function", "docstring": inspect.cleandoc("\n" + t), "attrs": []} for i, t in enumerate(batch)]
+        for c, res in zip(cases, render_batch("epytext", cases)):
+            ctx.traces += 1
+            want = re.findall(r"\b[pqhldf]\d+\b", c["docstring"])
+            got = re.findall(r"\b[pqhldf]\d+\b", parse_html(res["html"]).all_text())
+            if not pipeline_conserves(want, got, res["log"]):
+                pipeline_bad += 1
+                ctx.violation({"invariant": "PipelineConserves", "origin": "Epytext", "format": "epytext", "input": c["docstring"],
+                               "expected": want, "observed": got, "warnings": res["log"], "key": "epp:" + c["docstring"][:60]})
+    ep_tot["fields_not_last_through_pipeline"] = len(fnl_texts)
+    ctx.extra["epytext_structurer"] = ep_tot
+
+    # ------------------------------------------------------------------ negative controls
+    nc = {"dropped_word_detected": False, "altered_verbatim_detected": False, "silent_field_detected": False,
+          "epytext_tree_corruption_detected": False}
+    ctl_doc = [{"t": "para", "reg": 0, "lv": 0, "style": "bold", "w": [1, 2, 3]},
+               {"t": "doctest", "reg": 0, "lv": 0, "var": 1, "m": 4},
+               {"t": "field", "reg": 1, "lv": 0, "kind": "note", "arg": ""},
+               {"t": "para", "reg": 1, "lv": 0, "style": "code", "w": [5, 6]}]
+    ctl_rec = {"doc": ctl_doc, "host": "function", "nw": 6, "text": [1, 2, 3, 4, 4],
+               "verbatim": [{"kind": "doctest", "m": 4, "lines": templates["doctest"][0]}],
+               "fields": [{"kind": "note", "arg": "", "entry": "note", "where": "row", "words": [5, 6], "verb": []}]}
+    ds = serialise(ctl_doc, "epytext", templates)
+    assert ds is not None
+    res = render_batch("epytext", [{"id": 0, "host": "function", "docstring": ds, "attrs": []}])[0]
+    if judge(ctl_rec, "epytext", ds, res):
+        raise MachineryError(f"negative control baseline does not pass: {judge(ctl_rec, 'epytext', ds, res)}")
+    nc["dropped_word_detected"] = any(b["invariant"] == "BodyText" for b in
+                                      judge(ctl_rec, "epytext", ds, {**res, "html": res["html"].replace(word(2), "", 1)}))
+    nc["altered_verbatim_detected"] = any(b["invariant"] == "BodyVerbatim" for b in
+                                          judge(ctl_rec, "epytext", ds, {**res, "html": res["html"].replace(" = 1", " =  1", 1)}))
+    nc["silent_field_detected"] = any(b["invariant"] == "FieldShownOrReported" for b in
+                                      judge(ctl_rec, "epytext", ds, {**res, "html": re.sub(r"<table.*</table>", "", res["html"], flags=re.S)}))
+    if ep_records:
+        good = next((x for x in ep_records if not x["errs"] and len(x["tree"]) > 2), ep_records[0])
+        broken = dict(good, tree=good["tree"][:-1])
+        o = ep_check([broken])
+        nc["epytext_tree_corruption_detected"] = len(o["drift"]) == 1 and len(ep_check([good])["drift"]) == 0
+    ctx.extra["negative_control"] = nc
+    if not all(nc.values()):
+        raise MachineryError(f"negative control failed: {nc}")
+
+    ctx.exhaustive = all_exhaustive
+    ctx.assumptions += [
+        "the serialisers (document -> epytext / reST / google / numpy / plain text) are trusted; a document a format cannot "
+        "express unambiguously is skipped for that format and counted (not_expressible)",
+        "verbatim blocks are compared after removing the block's common indentation and surrounding blank lines "
+        "(the position of the block is markup, its inner layout is content)",
+        "a field that is not shown faithfully under its entry counts as reported if a warning names its tag or argument, or - when all "
+        "of its words are still shown under its entry - if a parse problem of that docstring was reported",
+        "a second @return/@rtype/@yield/@ytype in one docstring is outside the generator (it redefines the first)",
+        "Epytext.tla: sources start with two blank lines (the 'startline != 1' exemption of _add_list is not modelled); inline markup "
+        "(_colorize) is exercised by DocModel only",
+    ]
+    return ctx.finish(
+        rule="documents = behaviours of the DocModel builder machine (<= MaxActions builder actions, list nesting <= 3, fields of the "
+             "enabled kinds), each serialised to every docformat that can express it and rendered by the real pipeline; token "
+             "streams = behaviours of Epytext.tla replayed through epytext._tokenize/parse; distinct = distinct documents x formats "
+             "+ distinct token streams; non-trivial = documents with at least 3 nodes",
+        distinct_nontrivial=nontrivial + ep_tot["sequences"])
+
+
+def replay(ctx: Ctx, path: str) -> int:
+    w = json.load(open(path))
+    bad: List[str] = []
+    if w.get("origin") == "Epytext" and w["invariant"] == "StructurerConserves":
+        real = ep_real(w["input"])
+        got = [x[2] for x in (real["tree"] or []) if x[1] in ("para", "heading", "literalblock", "doctestblock", "field")]
+        if real["crash"] is None and not real["errs"] and got != w["expected"]:
+            bad.append("StructurerConserves")
+    elif w.get("origin") == "Epytext":
+        res = render_batch("epytext", [{"id": 0, "host": "function", "docstring": w["input"], "attrs": []}])[0]
+        if not pipeline_conserves(w["expected"], re.findall(r"\b[pqhldf]\d+\b", parse_html(res["html"]).all_text()), res["log"]):
+            bad.append("PipelineConserves")
+    else:
+        rec = w["rec"]
+        attrs = [f["arg"] for f in rec["fields"] if f["where"] == "attribute"]
+        res = render_batch(w["format"], [{"id": 0, "host": rec["host"], "docstring": w["input"], "attrs": attrs}])[0]
+        failed = judge(rec, w["format"], w["input"], res)
+        bad = sorted({f["invariant"] for f in failed})
+        for f in failed:
+            print("  ", json.dumps({k: v for k, v in f.items() if k != "warnings"})[:600])
+    print("replay:", "still violated: " + ",".join(bad) if bad else "holds now")
+    if bad:
+        print(f"VIOLATION property=C09 replay={path}")
+    ctx.cleanup()
+    return 1 if bad else 0
